@@ -574,6 +574,7 @@ package netty
 // ---------------------------------------------------------------------------
 // low-level write entry points
 //@ func (*channel).write1
+//@   event
 //@   requires chinv(c) && implies(c.writeQueue != nil, cap(c.writeQueue) >= 1) && len(p) <= 1<<47
 //@   modifies ghost pooltyp, ghost chclosed, elems(uint8), cell([]byte), channel.running
 //@   ensures at_most_one_enqueue: count("select send c.writeQueue") <= 1
@@ -680,3 +681,21 @@ package netty
 //@   modifies all
 //@   preserves handlerContext.*, pipeline.*, ghost node, ghost pos, channel.ctx, channel.cancel, channel.transport, channel.executor, channel.pipeline, channel.writeQueue, channel.untilWrite, channel.writeBuffers, channel.recycleBuffers, channel.id, channel.closed
 //@   ensures starts_read_loop_and_waits_for_active: nemitted() == 2 && evis(0, "Executor.Exec") && evrecv(0) == old(c.executor) && evis(1, "recv signal")
+
+// ReadFrom streams a reader in 1024-byte chunks, each handed to write1 exactly once, in order (C14).
+// (Each chunk is a separate low-level write: that is the known C09 finding for reader-typed messages.)
+//@ property C14 C09 C10 C11
+//@ func (*channel).ReadFrom
+//@   requires chinv(c) && implies(c.writeQueue != nil, cap(c.writeQueue) >= 1) && r != nil && rwf(r)
+//@   may_panic true
+//@   modifies all
+//@   loop 0 modifies all
+//@   loop 0 preserves channel.ctx, channel.cancel, channel.transport, channel.executor, channel.pipeline, channel.writeQueue, channel.untilWrite, channel.writeBuffers, channel.recycleBuffers, channel.id, channel.closed
+//@   loop 0 emits
+//@   loop 0 invariant cfg: chinv(c) && implies(c.writeQueue != nil, cap(c.writeQueue) >= 1) && rwf(r)
+//@   loop 0 invariant progress: n == rpos(r) - old(rpos(r)) && n >= 0
+//@   loop 0 invariant each_chunk_written_once: implies(nemitted() > 0, evis(0, "pbytes.Get") && count("netty.channel.write1") <= 1 && implies(count("netty.channel.write1") == 1, evarg(last("netty.channel.write1"), 2) == false))
+//@   loop 0 invariant chunk_is_what_was_read: implies(count("netty.channel.write1") == 1, at(last("netty.channel.write1"), len(evarg(last("netty.channel.write1"), 1)) >= 1 && seqeq(content(evarg(last("netty.channel.write1"), 1)), subseq(rdata(r), rpos(r) - len(evarg(last("netty.channel.write1"), 1)), len(evarg(last("netty.channel.write1"), 1)))) && rpos(r) - len(evarg(last("netty.channel.write1"), 1)) - old(rpos(r)) == n - len(evarg(last("netty.channel.write1"), 1))))
+//@   ensures last_chunk_is_what_was_read: implies(count("netty.channel.write1") == 1, at(last("netty.channel.write1"), len(evarg(last("netty.channel.write1"), 1)) >= 1 && seqeq(content(evarg(last("netty.channel.write1"), 1)), subseq(rdata(r), rpos(r) - len(evarg(last("netty.channel.write1"), 1)), len(evarg(last("netty.channel.write1"), 1))))))
+//@   ensures all_read: implies(err == nil, rpos(r) == rend(r))
+//@   ensures counted: implies(err == nil, n == rpos(r) - old(rpos(r)))
